@@ -108,7 +108,7 @@ def pred(name, defn, *args):
     if key not in _PRED_FNS:
         _PRED_FNS[key] = z3.Function(f"P_{name}_{len(_PRED_FNS)}", *[z.sort() for z in zs], z3.BoolSort())
     atom = Sym(BoolT, _PRED_FNS[key](*zs))
-    if name in UNFOLD or "*" in UNFOLD:
+    if (name in UNFOLD or "*" in UNFOLD or (name in DEFAULT_REVEALED and UNFOLD_ACTIVE[0])) and name not in HIDE:
         d = defn(*args)
         # definitional link at these arguments (conservative: the atom *is* the definition)
         LINKS.append(z3_bool(atom) == z3_bool(d))
@@ -117,6 +117,9 @@ def pred(name, defn, *args):
 
 
 LINKS = []
+DEFAULT_REVEALED = {"ids"}     # cheap predicates revealed everywhere unless the function under verification hides them
+HIDE = set()
+UNFOLD_ACTIVE = [True]
 
 
 def take_links():
